@@ -54,7 +54,7 @@ def drivers():
     def exhaustive(tier, seed, scale):
         if tier == "quick":
             return ["-profile", "exhaustive", "-depth", "2", "-max-cases", str(600 * scale)]
-        return ["-profile", "exhaustive", "-depth", "5", "-max-cases", "30000", "-workers", "8"]
+        return ["-profile", "exhaustive", "-depth", "5", "-max-cases", "50000", "-workers", "8"]
 
     def concurrent(tier, seed, scale):
         n = (2 if tier == "quick" else 40) * scale
